@@ -291,6 +291,10 @@ impl Harness for ChainH {
             cuts.retain(|c| *c < at);
             cx.goal("peer-hangs-up-while-items-are-held");
         }
+        // C11 only: the caller may lose interest and drop the stream after the first of the owed items,
+        // keeping what it was given: those values borrow from the connection, not from
+        // the stream, and safe code can go on reading them
+        let stop_after = if self.hold && owed >= 2 && pad == 0 && hangup == 0 { cx.choose(2, "caller-drops-the-stream:never|after-the-first-item") } else { 0 };
         let mut hung_up = false;
         let frame_ends: Vec<usize> = {
             let mut e = Vec::new();
@@ -368,7 +372,7 @@ impl Harness for ChainH {
                     }
                 }
             }
-            let mut stream = std::pin::pin!(stream);
+            let mut stream = Box::pin(stream);
             let mut task = Task::new();
             let mut items: Vec<zlink_core::Result<zlink_core::reply::Result<R<'_>, E<'_>>>> = Vec::new();
             let mut held: Vec<Held> = Vec::new();
@@ -479,6 +483,13 @@ impl Harness for ChainH {
                             items.push(it);
                         }
                         yielded += 1;
+                        if stop_after > 0 && yielded == stop_after {
+                            cx.goal("stream-dropped-with-replies-still-owed");
+                            cx.log(|| format!("the caller drops the stream after {yielded} of {owed} items"));
+                            drop(stream);
+                            check_held(cx, &wire, &|i| borrowed(&items[i]).unwrap_or("").to_string(), &held, &frames, yielded, "chain", &yields)?;
+                            return Ok(true);
+                        }
                     }
                 }
             }
@@ -1121,12 +1132,12 @@ pub fn run_c06(tier: Tier) -> i32 {
 
 pub fn run_c11(tier: Tier) -> i32 {
     let mut rep = Report::new("C11", tier.name());
-    rep.rule = "the C06 space (chains of <=3/4 calls, reply scripts, trailing frame, arrival chunkings) with the payload size of every reply a free choice from the size alphabet (sizes that fit the 256-byte buffer and sizes that force one or more growth steps) and EVERY yielded item held while all later ones are obtained; the peer pads every reply with 0, 1 or 3 extra NUL bytes. The harness's allocator always moves a block on realloc, so buffer growth deterministically releases the old block. Outcomes are distinct item sequences".into();
+    rep.rule = "the C06 space (chains of <=3/4 calls, reply scripts, trailing frame, arrival chunkings) with the payload size of every reply a free choice from the size alphabet (sizes that fit the 256-byte buffer and sizes that force one or more growth steps) and EVERY yielded item held while all later ones are obtained; the peer pads every reply with 0, 1 or 3 extra NUL bytes, may hang up after its first reply or inside its second one, and the caller may drop the stream after any number of items (what it was given borrows from the connection). The harness's allocator always moves a block on realloc, so buffer growth deterministically releases the old block. Outcomes are distinct item sequences".into();
     rep.assumptions = vec![
         "the allocator may move a block whenever it is grown (the harness's allocator always does)".into(),
         "a held &str is damaged if its memory was released, if a later transport read wrote over it, or if its content differs from the content it had when yielded; freed memory is never dereferenced by the harness".into(),
     ];
-    for g in ["replies-padded-with-extra-NULs", "item-held-across-a-later-read", "item-held-while-rest-is-buffered", "replies-in-separate-reads", "replies-coalesced-in-one-read", "more-call-with-continuing-replies"] {
+    for g in ["stream-dropped-with-replies-still-owed", "peer-hangs-up-while-items-are-held", "replies-padded-with-extra-NULs", "item-held-across-a-later-read", "item-held-while-rest-is-buffered", "replies-in-separate-reads", "replies-coalesced-in-one-read", "more-call-with-continuing-replies"] {
         rep.require_goal(g);
     }
     let wall = std::time::Duration::from_secs(tier.pick(60, 1500));
